@@ -217,6 +217,22 @@ def run(chk):
         chk.run("C06.R4", f"jinns.parameters._derivative_keys:{DK[eq_type]}.__post_init__", {"loss": eq_type}, go_default,
                 construct="default derivative keys")
 
+        # partial specifications: the terms that are given keep their mask, every omitted term gets the default
+        for given in terms:
+            def go_partial(eq_type=eq_type, terms=terms, dkcls=dkcls, given=given):
+                S0 = SingleLoss(E, eq_type, 'PINN', d=2, terms=tuple(CONF[t] for t in terms), eq_keys=EQ_KEYS)
+                special = {'nn_params': False, 'nu': True, 'th': False}
+                dk = dkcls(**{given: mask_tree(special)}, params=S0.params)
+                for t in terms:
+                    m = dk.fields[t]
+                    got = {'nn_params': m.fields['nn_params'], **m.fields['eq_params']}
+                    want = special if t == given else {'nn_params': True, 'nu': False, 'th': False}
+                    if got != want:
+                        raise Violation(t, f"with only `{given}` specified the mask of {t} is {got}", str(want))
+                return f"`{given}` kept, the omitted terms default to nn_params only"
+            chk.run("C06.R4", f"jinns.parameters._derivative_keys:{DK[eq_type]}.__post_init__", {"loss": eq_type, "only_specified": given},
+                    go_partial, construct="partial derivative keys")
+
 
     # ---------------- R5: per-unknown terms of system losses
     from ..lossenv import SystemLoss
@@ -229,7 +245,8 @@ def run(chk):
     for eq_type, sterms in sys_terms.items():
         dkcls = E.cls(E.mod_dk, DK[eq_type] if eq_type != 'statio_PDE' else 'DerivativeKeysPDEStatio')
         allt = TERMS[eq_type]
-        patterns = [0, 1] if not thorough else [0, 1, 2, 3]
+        patterns = ([0, 1] if not thorough else [0, 1, 2, 3]) + [10, 11]
+        none_for = {10: 'b', 11: 'a'}
         for pat in patterns:
             cfg = {"loss": eq_type, "pattern": pat}
 
@@ -241,6 +258,13 @@ def run(chk):
                         for gi, g in enumerate(GROUPS):
                             sel[(k, t, g)] = bool((ui + ti + gi + pat) % 2) if pat < 2 else bool(((ui * 3 + ti * 5 + gi * 7 + pat) // 2) % 2)
                 dkd = {k: dkcls(**{t: mask_tree({g: sel[(k, t, g)] for g in GROUPS}) for t in allt}) for k in unknowns}
+                if pat in none_for:
+                    # a None entry means "default keys for that unknown": the other unknown's keys are still its own
+                    k_none = none_for[pat]
+                    dkd[k_none] = None
+                    for t in allt:
+                        for g in GROUPS:
+                            sel[(k_none, t, g)] = (g == 'nn_params')
                 conf = tuple(CONF[t] for t in allt)
                 SL = SystemLoss(E, eq_type, 'PINN', unknowns=unknowns, equations=('e1',), terms=conf, eq_keys=EQ_KEYS,
                                 derivative_keys_dict=dkd)
